@@ -188,7 +188,8 @@ def global_grid_case(cx, kind, p, bnd, mod, trees, M, box, model_state=None, lab
     if back_grid.shape != vin.shape or np.abs(back_grid - vin).max() > 1e-7 * max(1.0, np.abs(vin).max()):
         rep.violation('C10_RoundTrip', dict(sig, call='interpolate_grid'), dict(info, max_error=float(np.abs(back_grid - vin).max()) if back_grid.shape == vin.shape else None),
                       what='interpolate_grid at the grid points differs from the nodal values (%s)' % info)
-    if D == 1 and not (kind == 'lagrange' and bnd and model_state is None):
+    no_model = (kind == 'lagrange' and bnd and model_state is None) or (kind == 'bspline' and bnd and not complete[0] and lag_model is None)
+    if D == 1 and not no_model:      # without the model's prediction a non-reproduced monomial cannot be told from the recorded design limits
         for k in range(K + 1):
             s2 = dict(sig, degree=k, complete_tree=complete[0], p=p, both_level2_points=(N // 4 in trees[0] and 3 * N // 4 in trees[0]))
             if model_state is not None:
@@ -409,7 +410,8 @@ def run(tier, seed):
     for t1 in ([full, near] + ([list(t) for t in rng.sample(trees[1:], 6)] if tier == 'thorough' else [])):
         for kind, ps in (('lagrange', (1, 2, 3, 5)), ('bspline', (1, 3, 5))):
             for p in ps:
-                global_grid_case(cx, kind, p, True, False, [list(t1)], M, boxes[-1], label='large')
+                mt = models[p].get(tuple(sorted(t1)))
+                global_grid_case(cx, kind, p, True, False, [list(t1)], M, boxes[-1], label='large', model_state=mt if kind == 'lagrange' else None, lag_model=mt if kind == 'bspline' else None)
     # ---- local grids (regular levels)
     lvs = [(l,) for l in range(1, 5)] + [(1, 2), (2, 1), (2, 2), (4, 1), (1, 4), (3, 2)] + ([(4, 2), (2, 4), (3, 3)] if tier == 'thorough' else [])
     for lv in lvs:
